@@ -75,8 +75,13 @@ Walk(mode, coll, order, ps, q, k, word) ==
             THEN IF pg.next.none THEN here ELSE here \o Walk(mode, coll, order, ps, pg.next, k + 1, Tail(word))
             ELSE IF pg.prev.none THEN here ELSE here \o Walk(mode, coll, order, ps, pg.prev, k - 1, Tail(word))
 
+\* page sizes beyond 100 (the v1 API accepts up to 1000) over a collection of 230 items, short traversals
+LargeCases == {[mode |-> m, coll |-> 1..230, order |-> o, ps |-> p, word |-> w] :
+                  m \in {"column", "offset"}, o \in {"asc", "desc"}, p \in {100, 101, 150},
+                  w \in {<<>>, <<"N">>, <<"N", "N">>, <<"N", "P">>}}
 Cases == {[mode |-> m, coll |-> c, order |-> o, ps |-> p, word |-> w] :
              m \in {"column", "offset"}, c \in Colls, o \in {"asc", "desc"}, p \in 1..MaxPage, w \in Words(MaxWord)}
+         \cup LargeCases
 
 VARIABLE c
 Init == c \in Cases
